@@ -9,6 +9,7 @@ mod pr;
 mod rg;
 mod fleet;
 mod wire;
+mod bv;
 
 fn main() {
     let args: Vec<String> = std::env::args().collect();
@@ -30,6 +31,8 @@ fn main() {
         "wire-exec" => wire::exec(&a),
         "wire-child" => wire::child(&a),
         "wire-c01" => wire::c01(&a),
+        "bv-vectors" => bv::vectors(&a),
+        "bv-random" => bv::random(&a),
         other => {
             eprintln!("unknown engine {other}");
             2
